@@ -17,7 +17,7 @@ use std::sync::atomic::{AtomicUsize, Ordering};
 use std::sync::{mpsc, Arc, Mutex};
 use std::time::Duration;
 
-const TO: Duration = Duration::from_millis(4000);
+const TO: Duration = Duration::from_millis(9000);
 
 pub struct Case {
     pub cfg: Vec<i64>,
